@@ -42,8 +42,13 @@ def find_span_binsearch(degree, knot_vector, num_ctrlpts, knot, **kwargs):
     # In The NURBS Book; number of knots = m + 1, number of control points = n + 1, p = degree
     # All knot vectors should follow the rule: m = p + n + 1
     n = num_ctrlpts - 1
-    if abs(knot_vector[n + 1] - knot) <= tol:
+    # Same conventions as the linear search: a parameter at (or beyond) the end of the domain belongs to the last span and a
+    # parameter before the start of the domain (e.g. a sample rounded down below a small first knot) to the first one.
+    # An absolute tolerance here moves every parameter within 10e-6 of the end into the last span, however short that span is.
+    if knot >= knot_vector[n + 1]:
         return n
+    if knot < knot_vector[degree]:
+        return degree
 
     # Set max and min positions of the array to be searched
     low = degree
